@@ -364,14 +364,15 @@ def _run_plan(case, plan):
                 labels.add("sync_ok" if r[0] == "ok" else "sync_err_" + r[1])
                 if not native:
                     ref["generate"] = _observe(senv, name, "generate", mk(senv, False), None, native)
-                # render() / generate() of an async environment start an event loop of their own (asyncio.run, ~2 ms):
-                # they are observed on the first data of every entry, the *_async entry points on every data
+                # render() / generate() of an async environment start an event loop of their own (asyncio.run, ~2 ms of
+                # mostly system time): render() is observed on the first data of every entry, generate() on the first
+                # data of every third case (a pure function of the case), the *_async entry points on every data
                 points = [("render_async", wrap)]
                 if not native:
                     points.append(("generate_async", wrap))
                 if di == 0:
                     points.append(("render", wrap))
-                    if not native:
+                    if not native and sum(map(len, plan.templates.values())) % 3 == 0:
                         points.append(("generate", wrap))
                 if wrap:
                     points.append(("render_async", False))
@@ -697,7 +698,7 @@ N_FOR_VARIANTS = 11
 
 LIBS = {
     "inc": "[{{ x }}{{ loop.index if loop is defined }}]",
-    "lib": "{% macro lm(v) %}<{{ v }}|{{ caller() if caller is defined }}>{% endmacro %}{% set libvar = 'L' %}",
+    "lib": "{% macro lm(v) %}<{{ v }}|{{ x }}|{{ caller() if caller is defined }}>{% endmacro %}{% set libvar = 'L' ~ x %}",
 }
 
 
@@ -806,7 +807,7 @@ def _for_src(E, v):
     if v == 9:
         return "{% for x in " + E + " %}{% include 'inc' %}{% include 'inc' without context %}{% endfor %}"
     if v == 10:
-        return ("{% from 'lib' import lm %}{% import 'lib' as L with context %}{% for x in " + E + " %}{{ lm(x) }}"
+        return ("{% from 'lib' import lm %}{% for x in " + E + " %}{% import 'lib' as L with context %}{{ lm(x) }}"
                 "{% call L.lm(loop.index) %}{{ x }}{% endcall %}{{ L.libvar }}{% endfor %}")
     raise core.HarnessError("unknown for variant %r" % (v,))
 
@@ -932,6 +933,12 @@ def _plan_pipe(case, allow_known=False):
     kind = "seq"
     for name, par in p["stages"]:
         labels.add("st_" + name)
+        if name == "groupby" and "default" in par:
+            labels.add("groupby_default")
+        if name in ("slice", "batch") and "fill" in par:
+            labels.add(name + "_fill")
+        if name == "unique" and par.get("cs") is not None:
+            labels.add("unique_cs")
         if name == "map" and "f" in par:
             labels.add("map_" + str(par["f"]))
         kind = "lazy" if name in LAZY else "other"
@@ -995,7 +1002,8 @@ def _pipe_cases():
             return [pick(_INTS) for _ in range(draw(st.integers(lo, hi)))]
 
         def strs(lo=0, hi=5):
-            return [pick(_STRS) for _ in range(draw(st.integers(lo, hi)))]
+            pool = _STRS if chance(60) else ["a", "A", "b", "B", "ab", "AB"]   # case twins: unique / groupby / sort fold case
+            return [pick(pool) for _ in range(draw(st.integers(lo, hi)))]
 
         auto = chance(35)
 
@@ -1011,9 +1019,9 @@ def _pipe_cases():
                 out = []
                 for _ in range(draw(st.integers(0, 5))):
                     d = {}
-                    if chance(85):
+                    if chance(80):
                         d["a"] = pick(_INTS)
-                    if chance(85):
+                    if chance(80):
                         d["b"] = pick(_STRS)
                     if chance(50):
                         d["c"] = ints(0, 3)
@@ -1026,7 +1034,7 @@ def _pipe_cases():
             pool = [1, 2, "a", "B", None, True, [1, 2], {"a": 1, "b": "x"}, 0, "", 2.5, 0.1, [], "10"]
             return [pick(pool) for _ in range(draw(st.integers(0, 5)))]
 
-        ty = pick(["int", "int", "str", "str", "dict", "dict", "list", "pair", "mix"])
+        ty = pick(["int", "int", "str", "str", "dict", "dict", "dict", "list", "pair", "mix"])
         xs = items(ty)
         sk = pick(["var", "var", "gen", "gen", "cofn", "cogen", "meth", "attr", "lit", "range"])
         if sk == "lit" and not (ty in ("int", "str", "list", "pair") and not any(isinstance(x, dict) for x in xs)):
@@ -1066,14 +1074,14 @@ def _pipe_cases():
             if t == "int":
                 choices += ["map", "map", "select"]
             elif t == "str":
-                choices += ["map", "map", "unique", "select"]
+                choices += ["map", "map", "unique", "unique", "unique", "select"]
             elif t == "dict":
-                choices = ["mapattr", "mapattr", "selectattr", "selectattr", "rejectattr", "groupby", "groupby", "uniqueattr",
-                           "sortattr", "list", "slice", "select"]
+                choices = ["mapattr", "mapattr", "selectattr", "selectattr", "rejectattr", "groupby", "groupby", "groupby", "groupby",
+                           "uniqueattr", "sortattr", "list", "slice", "select"]
             elif t == "list":
                 choices += ["map", "map"]
             elif t == "pair":
-                choices += ["mapattr", "groupby", "uniqueattr", "map"]
+                choices += ["mapattr", "groupby", "groupby", "groupby", "uniqueattr", "map"]
             elif t == "group":
                 choices = ["mapattr", "mapattr", "list", "map", "slice"]
             else:
@@ -1142,8 +1150,8 @@ def _pipe_cases():
             if k == "groupby":
                 a = pick(["a", "b", "a", "b", "zz"]) if t == "dict" else pick([0, 1])
                 par = {"attr": a}
-                if chance(40):
-                    par["default"] = pick([0, "dflt"])
+                if chance(50):
+                    par["default"] = pick([0, "dflt", 1, "B"])
                 if chance(40):
                     par["cs"] = chance(50)
                 return ["groupby", par], "group"
@@ -1279,7 +1287,7 @@ def _tset_cases(thorough):
 N_SHARDS = 16
 SIZES = {  # per shard: (pipe, stmt, expr, tset); measured single-process cost per case incl. generation:
     # pipe ~10 ms, stmt ~37 ms, expr ~18 ms, tset ~26 ms  ->  quick ~560 CPU-s, thorough ~8500 CPU-s
-    "quick": (1250, 220, 440, 250),
+    "quick": (1150, 200, 400, 230),
     "thorough": (12000, 3000, 6000, 3500),
 }
 
